@@ -3,6 +3,7 @@ import Robust.Irc.Proofs.H3d
 NICK (introduce a pseudo-client), SVSNICK, KILL, QUIT.
 -/
 namespace Robust.Irc
+open Srv
 open Robust AMap
 
 /-! ### NICK -/
@@ -24,36 +25,45 @@ theorem cmdServerNick_mid {c0 c c' : Ctx} {sid : Id} {m : IrcMsg} (h : Mid c0 c 
   · obtain ⟨p0, _, hr⟩ := Res.bind_eq_ok.1 hr
     split at hr
     · cases hr; exact h.sendSvc _
-    · rename_i hnick
-      dsimp only at hr
+    · rename_i hv
+      have hvalid : isValidNickname p0 = true := by simpa using hv
       split at hr
       · cases hr; exact h.sendSvc _
-      · rename_i hsess
+      · rename_i hnick
+        dsimp only at hr
         split at hr
         · cases hr; exact h.sendSvc _
-        · rename_i st1 hcs
-          obtain ⟨p3, _, hr⟩ := Res.bind_eq_ok.1 hr
-          obtain ⟨c2, hm, hr⟩ := Res.bind_eq_ok.1 hr
-          cases hr
-          have hnone : AMap.get c.st.nicks (nickToLower p0) = none :=
-            AMap.contains_eq_false_iff.1 (by simpa using hnick)
-          have hfresh : AMap.get c.st.sessions ⟨s.id.id, fnv64 p0⟩ = none :=
-            AMap.contains_eq_false_iff.1 (by simpa using hsess)
-          have hfree := h.hinv.toWInvCore.unindexed_of_fresh hfresh
-          have hw := WInv_serverNick h.hinv.toWInv hfree hnone hcs hm (serverNick_fn_core p0 p3 m.trailing)
-          have hne : sid ≠ ⟨s.id.id, fnv64 p0⟩ := by
-            intro he; rw [← he, hs] at hfresh; cases hfresh
-          have hl1 := LInv.createSession h.linv hcs
-          have e1 := createSession_eq hcs
-          subst e1
-          obtain ⟨ns, hns, rfl⟩ := modS_eq_ok.1 hm
-          change AMap.get (AMap.set c.st.sessions _ _) _ = some ns at hns
-          rw [AMap.get_set_same] at hns
-          cases hns
-          refine ⟨⟨hw, h.hinv.nonempty.congr rfl⟩, ?_, ?_, h.og.trans ⟨rfl, [], by simp⟩⟩
-          · refine LInv.congr (st := (putS _ _).st) (LInv.putS hl1 ?_) rfl
-            intro hl; cases hl
-          · exact (h.actor.set_other hne rfl).set_other (st' := (putS _ _).st) hne rfl
+        · rename_i hsess
+          split at hr
+          · cases hr; exact h.sendSvc _
+          · rename_i st1 hcs
+            obtain ⟨p3, _, hr⟩ := Res.bind_eq_ok.1 hr
+            obtain ⟨c2, hm, hr⟩ := Res.bind_eq_ok.1 hr
+            cases hr
+            have hnone : AMap.get c.st.nicks (nickToLower p0) = none :=
+              AMap.contains_eq_false_iff.1 (by simpa using hnick)
+            have hfresh : AMap.get c.st.sessions ⟨s.id.id, fnv64 p0⟩ = none :=
+              AMap.contains_eq_false_iff.1 (by simpa using hsess)
+            have hfree := h.hinv.toWInvCore.unindexed_of_fresh hfresh
+            have hw := WInv_serverNick h.hinv.toWInv hfree hnone hcs hm (serverNick_fn_core p0 p3 m.trailing)
+            have hne : sid ≠ ⟨s.id.id, fnv64 p0⟩ := by
+              intro he; rw [← he, hs] at hfresh; cases hfresh
+            have hl1 := LInv.createSession h.linv hcs
+            have hni : NI c0.st → NI (Ctx.mk (St.mk c2.st.sessions (AMap.set c2.st.nicks (nickToLower p0) ⟨s.id.id, fnv64 p0⟩)
+                c2.st.channels c2.st.svsholds c2.st.serverSessions c2.st.lastProcessed c2.st.serverName c2.st.config)
+                c2.msgid c2.replyid c2.out).st := fun h0 =>
+              (((h.ninv h0).createSession hcs).modS_nick (c := { c with st := st1 }) hm
+                (fun _ => hvalid)).setNick (nickToLower_ne_empty_of_valid hvalid) rfl rfl rfl
+            have e1 := createSession_eq hcs
+            subst e1
+            obtain ⟨ns, hns, rfl⟩ := modS_eq_ok.1 hm
+            change AMap.get (AMap.set c.st.sessions _ _) _ = some ns at hns
+            rw [AMap.get_set_same] at hns
+            cases hns
+            refine ⟨⟨hw, h.hinv.nonempty.congr rfl⟩, ?_, ?_, h.og.trans ⟨rfl, [], by simp⟩, hni⟩
+            · refine LInv.congr (st := (putS _ _).st) (LInv.putS hl1 ?_) rfl
+              intro hl; cases hl
+            · exact (h.actor.set_other hne rfl).set_other (st' := (putS _ _).st) hne rfl
 
 theorem cmdServerNick_preserves : PreservesSrv cmdServerNick :=
   PreservesSrv.of_mid fun _ _ _ _ _ h hr => cmdServerNick_mid h hr
@@ -81,10 +91,12 @@ theorem cmdServerNick_noPanic {c : Ctx} {sid : Id} {m : IrcMsg} {s : Session}
       · exact NoPanic.pure _
       · split
         · exact NoPanic.pure _
-        · rename_i st1 hcs
-          have e1 := createSession_eq hcs
-          subst e1
-          refine NoPanic.bind (NoPanic.of_ok ⟨_, modS_of_get _ (AMap.get_set_same _ _ _)⟩) (fun _ _ => NoPanic.pure _)
+        · split
+          · exact NoPanic.pure _
+          · rename_i st1 hcs
+            have e1 := createSession_eq hcs
+            subst e1
+            refine NoPanic.bind (NoPanic.of_ok ⟨_, modS_of_get _ (AMap.get_set_same _ _ _)⟩) (fun _ _ => NoPanic.pure _)
 
 theorem cmdServerNick_safe : ServicesSafe cmdServerNick 4 :=
   fun _ _ _ _ _ hs _ _ hlen => cmdServerNick_noPanic hs (Or.inr hlen)
@@ -153,7 +165,9 @@ theorem svsnick_rename {c0 c c1 : Ctx} {sid tid : Id} {t : Session} {p0 p1 : Str
   have hL1 : LInv c1.st := h.linv.modS hm1 (fun s _ _ => isValidNickname_ne_empty hvalid)
   have hA1 : SrvActor c1.st sid := h.actor.modS h.hinv.toWInvCore (by intro s; exact ⟨rfl, rfl⟩) hm1
   have hss := renameCtx_sessions c1 tid (nickToLower p1) (nickToLower p0) b
-  refine ⟨⟨hI, hL1.congr hss, hA1.congr hss, (h.og.trans (OutGrows.modS hm1)).trans (renameCtx_og _ _ _ _ _)⟩, ?_⟩
+  refine ⟨⟨hI, hL1.congr hss, hA1.congr hss, (h.og.trans (OutGrows.modS hm1)).trans (renameCtx_og _ _ _ _ _),
+    fun h0 => ((h.ninv h0).modS_nick hm1 (fun _ => hvalid)).renameCtx _ _ _
+      (nickToLower_ne_empty_of_valid hvalid)⟩, ?_⟩
   rw [hss]
   exact modS_keeps_stored hm1 ht
 
